@@ -188,7 +188,7 @@ int main()
 	while (std::getline(std::cin, line)) {
 		std::vector<std::string> v = split(line);
 		std::string out;
-		if (v.size() == 3 && v[0] == "p") {
+		if (v.size() >= 3 && v[0] == "p") {
 			bool full = v[1] == "1";
 			std::string doc = unhex(v[2]);
 			presult a = parse_range(doc, full);
